@@ -214,3 +214,24 @@ pub fn stream_components() -> Value {
         "stub": ["transport (SimStream: scripted Read/Write/AsyncRead/AsyncWrite)", "peer (byte script + capture of everything written)", "application task (scripted read/write/cancel/advance)", "executor (library futures polled by hand, one poll per step)"],
     })
 }
+
+/// Earlier activity in the same process that a stateful library might remember: a one-frame
+/// keep-alive session in each size mode and implementation.
+pub fn stream_preludes(_sc: &StreamScenario) -> Vec<StreamScenario> {
+    let mut v = Vec::new();
+    for mode in [crate::scenario::SizeMode::Compressed, crate::scenario::SizeMode::Uncompressed] {
+        for imp in [crate::scenario::Imp::Blocking, crate::scenario::Imp::Tokio] {
+            v.push(StreamScenario {
+                imp,
+                mode,
+                verify_version: true,
+                explicit_gate: true,
+                inbound: mode.pong().to_vec(),
+                reads: vec![],
+                writes: vec![],
+                ops: vec![AppOp::Drain { max: 3 }],
+            });
+        }
+    }
+    v
+}
